@@ -234,6 +234,17 @@ def run_job(job):
         run((None, None), (None, None, oa), (None, None, ob), "over-limit: different over-limit contexts")
         run((None, None), (oa, None, None), (ob, None, None), "over-limit: different over-limit client identities at login")
         run((None, None), (None, oa, None), (None, ob, None), "over-limit: different over-limit server identities at login")
+        # values that begin or end with one of the protocol's own labels are values like any other: a binding that strips,
+        # skips or re-interprets such a label makes "label || x" collide with "x" (or with the absent value)
+        for lab_ in (b"OPAQUEv1-", b"OPAQUE-", b"OPAQUE-DeriveKeyPair", b"ServerMAC", b"ClientMAC", b"SessionKey", b"HandshakeSecret", b"MaskingKey", b"OprfKey",
+                     b"CredentialResponsePad", b"ExportKey", b"AuthKey", b"PrivateKey", b"RFC9807", b"\x00\x09OPAQUEv1-"):
+            for x_ in (b"", b"demo-app"):
+                for a_, b_ in ((lab_ + x_, x_ or None), (x_ + lab_, x_ or None), (lab_ + x_, x_)):
+                    run((None, None), (None, None, a_), (None, None, b_), "collision: ctx with a protocol label vs without")
+                    run((a_, b"srv"), (a_, b"srv", None), (b_, b"srv", None), "collision: id_u with a protocol label vs without")
+                    run((b"u", a_), (b"u", a_, None), (b"u", b_, None), "collision: id_s with a protocol label vs without")
+                run((None, None), (None, None, lab_ + x_), (None, None, lab_ + x_), "agree: ctx with a protocol label")
+                run((lab_ + x_, lab_), (lab_ + x_, lab_, None), (lab_ + x_, lab_, None), "agree: identities with a protocol label")
         # swapped / crossed identities
         run((b"U", b"V"), (b"V", b"U", None), (b"V", b"U", None), "collision: identities swapped, registration vs login")
         run((b"U", b"V"), (b"U", b"V", None), (b"V", b"U", None), "collision: identities swapped, client vs server")
